@@ -17,17 +17,16 @@ func InitGenesis(ctx sdk.Ctx, keeper keeper.Keeper, supplyKeeper types.AuthKeepe
 	// set the parameters from the data
 	keeper.SetParams(ctx, data.Params)
 	for _, application := range data.Applications {
-		if application.IsUnstaked() || application.IsUnstaking() {
-			fmt.Println(fmt.Errorf("%v the applications must be staked at genesis", application))
+		if application.IsUnstaked() {
+			fmt.Println(fmt.Errorf("%v the applications must be staked or unstaking at genesis", application))
 			continue
 		}
 		// calculate relays
 		application.MaxRelays = keeper.CalculateAppRelays(ctx, application)
-		// set the applications from the data
+		// set the applications from the data (an unstaking application re-enters the unstaking queue)
 		keeper.SetApplication(ctx, application)
-		if application.IsStaked() {
-			stakedTokens = stakedTokens.Add(application.GetTokens())
-		}
+		// staked or unstaking: in both cases its tokens are held by the staked pool
+		stakedTokens = stakedTokens.Add(application.GetTokens())
 	}
 	stakedCoins := sdk.NewCoins(sdk.NewCoin(posKeeper.StakeDenom(ctx), stakedTokens))
 	// check if the staked pool accounts exists
